@@ -153,7 +153,8 @@ class Layout:
             self.emit(";")
         elif r.kind == "char":
             pre = list(r.checks)
-            k = self.rnd.randint(0, len(pre)) if self.style != "plain" else len(pre)
+            # @check directives may stand before and after @char: wild layouts always put some after it
+            k = len(pre) // 2 if self.style != "plain" else len(pre)
             for c in pre[:k]:
                 self.emit("@check")
                 self.emit("(")
